@@ -165,6 +165,23 @@ func init() {
 		t.ex.notes["_random"] = q
 		return nil
 	}
+	I["crypto/subtle.ConstantTimeCompare"] = func(t *Thread, fn *ssa.Function, a []Value) Value {
+		x, y := a[0].(*SliceVal), a[1].(*SliceVal)
+		eq := eqValue(&StrVal{B: sliceBytes(x)}, &StrVal{B: sliceBytes(y)}, nil)
+		return Ite(eq, MkBV(1, 64), MkBV(0, 64))
+	}
+	// ---------------- os/exec, flag: processes are not modelled ----------------
+	I["os/exec.Command"] = func(t *Thread, fn *ssa.Function, a []Value) Value {
+		noteStub("os/exec: Command builds an object, Start always fails (no process is ever created in the model)")
+		return newCell(fn.Signature.Results().At(0).Type().(*types.Pointer).Elem())
+	}
+	I["(*os/exec.Cmd).Start"] = func(t *Thread, fn *ssa.Function, a []Value) Value {
+		return mkError(t, StrConst("exec: processes are not available in the model"))
+	}
+	I["(*os/exec.Cmd).Run"] = I["(*os/exec.Cmd).Start"]
+	I["flag.Lookup"] = func(t *Thread, fn *ssa.Function, a []Value) Value {
+		return newCell(fn.Signature.Results().At(0).Type().(*types.Pointer).Elem())
+	}
 	I["math.Min"] = func(t *Thread, fn *ssa.Function, a []Value) Value {
 		x, y := a[0].(*Term), a[1].(*Term)
 		return Ite(RCmp(OpRLT, y, x), y, x)
